@@ -92,7 +92,7 @@ Qed.
 Lemma text_tagfree l : text_ok l = true -> tagfree (l ++ nl_str)%string = true /\ (count_char LF (l ++ nl_str)%string <=? 1)%nat = true.
 Proof.
   unfold text_ok. intros H. apply andb_prop in H as [H1 H2]. split.
-  - unfold tagfree. rewrite no_char_app. change (chr 60) with LT in H1. rewrite H1. reflexivity.
+  - unfold tagfree. apply no3_app; [exact H1|reflexivity].
   - clear H1. induction l as [|c l IH]; [reflexivity|]. cbn [no_char] in H2. apply andb_prop in H2 as [Hc H2].
     apply negb_true_iff in Hc. cbn [append count_char]. rewrite Hc. cbn [Nat.add]. apply IH. exact H2.
 Qed.
